@@ -20,7 +20,7 @@ type c05Case struct {
 	Floats  bool    `json:"floats,omitempty"`
 }
 
-var c05TopExtras = []string{"origin", "membership", "prev_state", "redacts", "unsigned", "age_ts", "foo", "outlier", "destinations", "replaces_state"}
+var c05TopExtras = []string{"origin", "membership", "prev_state", "redacts", "unsigned", "age_ts", "foo", "outlier", "destinations", "replaces_state", "event_id"}
 
 func c05Check(ctx *vfCtx, c c05Case) {
 	impl, err := GetRoomVersion(RoomVersion(c.Version))
@@ -265,6 +265,11 @@ func c05Gen(t *rapid.T) c05Case {
 		}
 		if k == "redacts" {
 			extras = extras.with(k, jstr(evFakeID(t, version, "xredacts"))) // top-level redacts is a string field
+		} else if k == "event_id" {
+			if vtraits[version].Format == 1 {
+				continue // format-1 events carry their real event_id
+			}
+			extras = extras.with(k, jstr("$stale:other.example")) // a stray key in format-2 events
 		} else {
 			extras = extras.with(k, jgenValue(t, o, 1, "extraVal"))
 		}
